@@ -137,10 +137,14 @@ impl<'a> PositionCalculator<'a> {
         let pos = pair.as_span().start();
         debug_assert!(pos >= self.pos);
         let bytes_to_read = pos - self.pos;
-        let chars_to_read = self.input[..bytes_to_read].chars();
-        for ch in chars_to_read {
+        let mut chars_to_read = self.input[..bytes_to_read].chars().peekable();
+        while let Some(ch) = chars_to_read.next() {
             match ch {
                 '\r' => {
+                    // `\r\n` is a single line terminator, a lone `\r` is one too.
+                    if chars_to_read.peek() != Some(&'\n') {
+                        self.line += 1;
+                    }
                     self.column = 1;
                 }
                 '\n' => {
